@@ -111,9 +111,87 @@ func extractDecoderCfg(repo, root string) error {
 	g2 := true
 	for _, name := range []string{"read", "decodeArray", "decodeCompactArray"} {
 		fd, ok := fs[name]
-		g2 = g2 && ok && before(firstCall(fd, "lengthOutOfBounds"), firstCall(fd, "make", "makeArray"))
+		g2 = g2 && ok && before(firstCall(fd, "lengthOutOfBounds"), firstCall(fd, "make", "makeArray", "decodeElems"))
 	}
 	facts["G2"] = g2
+	// G8 arrays are allocated as their elements arrive (decodeElems): the first makeArray is capped by arrayChunk, the loop stops
+	// at the first decoder error, growth happens only when the next slot is needed
+	if fd, ok := fs["decodeElems"]; ok && fd.Body != nil {
+		body := text(fd.Body)
+		loop := ""
+		ast.Inspect(fd.Body, func(x ast.Node) bool {
+			if f, ok := x.(*ast.ForStmt); ok && loop == "" && f.Cond != nil {
+				loop = text(f.Cond) + " :: " + text(f.Body)
+			}
+			return true
+		})
+		first := ""
+		if p := firstCall(fd, "makeArray"); p != token.NoPos {
+			ast.Inspect(fd.Body, func(x ast.Node) bool {
+				if c, ok := x.(*ast.CallExpr); ok && c.Pos() == p {
+					first = text(c)
+				}
+				return true
+			})
+		}
+		facts["G8"] = strings.Contains(body, "if m > arrayChunk { m = arrayChunk }") && first == "makeArray(elemType, m)" &&
+			strings.Contains(loop, "d.err == nil") && strings.Contains(loop, "d.remain > 0") && strings.Contains(loop, "if i == a.length()") &&
+			before(firstCall(fd, "makeArray"), firstCall(fd, "growArray"))
+		for _, name := range []string{"decodeArray", "decodeCompactArray"} {
+			if f2, ok := fs[name]; ok {
+				facts["G8"] = facts["G8"] && firstCall(f2, "makeArray") == token.NoPos && firstCall(f2, "decodeElems") != token.NoPos
+			}
+		}
+	}
+	// G9 decoder.read allocates the announced length only up to readChunk; longer values go to a buffer that grows with the bytes received
+	if fd, ok := fs["read"]; ok && fd.Body != nil {
+		body := text(fd.Body)
+		guarded := false
+		ast.Inspect(fd.Body, func(x ast.Node) bool {
+			if is, ok := x.(*ast.IfStmt); ok && text(is.Cond) == "n <= readChunk" && strings.Contains(text(is.Body), "make([]byte, n)") {
+				if len(is.Body.List) > 0 {
+					if _, ok := is.Body.List[len(is.Body.List)-1].(*ast.ReturnStmt); ok {
+						guarded = true
+					}
+				}
+			}
+			return true
+		})
+		facts["G9"] = guarded && strings.Count(body, "make([]byte, n)") == 1 && strings.Contains(body, "make([]byte, readChunk)")
+	}
+	// G10 the loops over tagged fields stop at the first decoder error (response header, request header, flexible structs)
+	{
+		g10 := true
+		loopStops := func(n ast.Node, src func(ast.Node) string, counter string) bool {
+			found := false
+			ast.Inspect(n, func(x ast.Node) bool {
+				if f, ok := x.(*ast.ForStmt); ok && f.Cond != nil {
+					c := src(f.Cond)
+					if strings.Contains(c, "< "+counter) {
+						found = strings.Contains(c, "d.err == nil")
+					}
+				}
+				return true
+			})
+			return found
+		}
+		for _, fn := range [][2]string{{"response.go", "ReadResponse"}, {"request.go", "ReadRequest"}} {
+			f, src, err := parse(fn[0])
+			if err != nil {
+				return err
+			}
+			fd, ok := funcsOf(f)[fn[1]]
+			g10 = g10 && ok && loopStops(fd, func(n ast.Node) string {
+				return strings.Join(strings.Fields(src[fset.Position(n.Pos()).Offset:fset.Position(n.End()).Offset]), " ")
+			}, "taggedCount")
+		}
+		if fd, ok := fs["structDecodeFuncOf"]; ok {
+			g10 = g10 && loopStops(fd, text, "n")
+		} else {
+			g10 = false
+		}
+		facts["G10"] = g10
+	}
 	// G3
 	if fd, ok := fs["structDecodeFuncOf"]; ok {
 		var inner *ast.FuncLit
@@ -183,12 +261,68 @@ func extractDecoderCfg(repo, root string) error {
 			(strings.Contains(t, "n > math.MaxInt32") && strings.Contains(t, "return -1") && firstCall(fs["decodeCompactArray"], "toLength") != token.NoPos &&
 				firstCall(fs["readCompactString"], "toLength") != token.NoPos && firstCall(fs["readCompactBytes"], "toLength") != token.NoPos)
 	}
+	// G6/G7 the un-framed SASL exchange, protocol/saslauthenticate (*Request).readResp: `if respLen < 0 { … return }` before any
+	// use of respLen, and no allocation sized by respLen (no make(..., respLen…)): the buffer grows with the bytes received
+	{
+		p := filepath.Join(repo, "protocol", "saslauthenticate", "saslauthenticate.go")
+		if src, err := os.ReadFile(p); err == nil {
+			if f, err := parser.ParseFile(fset, p, src, 0); err == nil {
+				if fd := funcsOf(f)["readResp"]; fd != nil && fd.Body != nil {
+					txt := func(n ast.Node) string {
+						return strings.Join(strings.Fields(string(src[fset.Position(n.Pos()).Offset:fset.Position(n.End()).Offset])), " ")
+					}
+					lenVar := ""
+					neg, grows := false, true
+					for _, st := range fd.Body.List {
+						if as, ok := st.(*ast.AssignStmt); ok && lenVar == "" && len(as.Lhs) == 1 && strings.Contains(txt(as.Rhs[0]), "binary.BigEndian.Uint32") {
+							lenVar = txt(as.Lhs[0])
+							continue
+						}
+						if lenVar == "" {
+							continue
+						}
+						if is, ok := st.(*ast.IfStmt); ok && !neg && is.Init == nil && txt(is.Cond) == lenVar+" < 0" && len(is.Body.List) > 0 {
+							if _, ok := is.Body.List[len(is.Body.List)-1].(*ast.ReturnStmt); ok {
+								neg = true
+								continue
+							}
+						}
+						// any statement before the negative test that mentions the length defeats it
+						if !neg && strings.Contains(txt(st), lenVar) {
+							neg = false
+							break
+						}
+					}
+					ast.Inspect(fd.Body, func(n ast.Node) bool {
+						if ce, ok := n.(*ast.CallExpr); ok {
+							if id, ok := ce.Fun.(*ast.Ident); ok && id.Name == "make" && lenVar != "" {
+								for _, a := range ce.Args[1:] {
+									if strings.Contains(txt(a), lenVar) {
+										grows = false
+									}
+								}
+							}
+						}
+						return true
+					})
+					facts["G6"] = neg
+					facts["G7"] = grows && lenVar != ""
+				}
+			}
+		}
+	}
 	bounded := facts["G1"] && facts["G2"] && facts["G3"] && facts["G4"] && facts["G5"]
 	var sb strings.Builder
 	sb.WriteString("-- GENERATED by /verif/go/extract (decodercfg) from /repo/protocol/{decode,response,request}.go — do not edit\n")
 	sb.WriteString("import KafkaVerif.Model.Codec\nnamespace KV.Gen\n")
 	fmt.Fprintf(&sb, "-- guards found: G1 lengthOutOfBounds=%v  G2 read/decodeArray/decodeCompactArray=%v  G3 tagged loop=%v  G4 frame size + header tags=%v  G5 toLength=%v\n",
 		facts["G1"], facts["G2"], facts["G3"], facts["G4"], facts["G5"])
-	fmt.Fprintf(&sb, "def decoderCfg : KV.Codec.Cfg := { bounded := %v }\nend KV.Gen\n", bounded)
+	fmt.Fprintf(&sb, "-- SASL raw exchange (saslauthenticate readResp): G6 negative length rejected=%v  G7 no allocation sized by the length=%v\n", facts["G6"], facts["G7"])
+	fmt.Fprintf(&sb, "-- G8 arrays allocated as their elements arrive (decodeElems: first makeArray capped by arrayChunk, loop stops at the first error)=%v\n", facts["G8"])
+	fmt.Fprintf(&sb, "def decoderCfg : KV.Codec.Cfg := { bounded := %v, growing := %v }\n", bounded, facts["G8"] && facts["G9"])
+	fmt.Fprintf(&sb, "/-- G8: a count that is within the ANNOUNCED frame size but beyond what was received does not allocate ahead of the data -/\ndef arraysGrow : Bool := %v\n", facts["G8"])
+	fmt.Fprintf(&sb, "/-- G9: decoder.read allocates an announced string / bytes length only up to readChunk; longer values grow with the bytes received -/\ndef readsGrow : Bool := %v\n", facts["G9"])
+	fmt.Fprintf(&sb, "/-- G10: the tagged-field loops (response header, request header, flexible structs) stop at the first decoder error -/\ndef tagLoopsStop : Bool := %v\n", facts["G10"])
+	fmt.Fprintf(&sb, "def saslCfg : KV.Codec.SaslCfg := { negChecked := %v, grows := %v }\nend KV.Gen\n", facts["G6"], facts["G7"])
 	return os.WriteFile(filepath.Join(root, "lean", "KafkaVerif", "Gen", "DecoderCfg.lean"), []byte(sb.String()), 0o644)
 }
